@@ -76,7 +76,7 @@ def main():
     checks, na = [], []
     for pid in sorted(P):
         level, tech, text, note, ref = P[pid]
-        if ready.get(pid) and os.path.exists(os.path.join(V, "tools", "props", pid + ".py")):
+        if pid in ready and os.path.exists(os.path.join(V, "tools", "props", pid + ".py")):
             r = ready[pid]
             checks.append({
                 "property_id": pid,
